@@ -1,6 +1,8 @@
+import os
+
 from . import stage
 
-FLAVOURS = ["san"]
+FLAVOURS = ["san", "fast"]
 
 PAIRS = ["vtmf/key-nizk", "vtmf/key-interactive", "vtmf/key-publiccoin", "vtmf/cp-plain", "vtmf/cp-table",
          "vtmf/or-first", "vtmf/or-second", "vtmf/mask", "vtmf/remask", "vtmf/decrypt",
@@ -22,6 +24,7 @@ ALT = ["group:other", "group:g^2", "key:extra-share", "com:other-seed", "key:oth
 
 def prebuild(repo):
     stage("w_c05", repo)
+    stage("w_c05", repo, flavour="fast")
 
 
 def spec(tier, seed, repo):
@@ -52,9 +55,15 @@ def spec(tier, seed, repo):
     if not quick:
         floors.update({"equiv_executed/same-square/resid/neg": 50, "equiv_executed/same-residue-mod-m/resid/+m": 50,
                        "equiv_executed/text-after-last-delimiter/struct:sts/append-after-last-delimiter": 5})
+    # development aid (mutant triage): VERIF_C05_PROTO=<prefix>[,<prefix>..] restricts the sweep to some pairs;
+    # the floors then fail (exit 2) unless a violation is found (exit 1) - never used by the registered commands
+    args = []
+    if os.environ.get("VERIF_C05_PROTO"):
+        args = ["--opt", "proto=" + os.environ["VERIF_C05_PROTO"]]
     return dict(
-        stages=[stage("w_c05", repo, nshards=16, case_timeout=1200 if quick else 7200,
-                      total_timeout=4 * 3600)],
+        # quick: ASan+UBSan build; thorough (~10^5 verifier runs, verdict-only oracle): -O2 build without sanitizers
+        stages=[stage("w_c05", repo, args=args, nshards=16, case_timeout=1200 if quick else 7200,
+                      total_timeout=6 * 3600, flavour="san" if quick else "fast")],
         level="fault_enumeration",
         rule="one case = (parameter world, prover/verifier pair, size n, block of targets).  An honest run is recorded and "
              "must be ACCEPTED (otherwise the case is trivial and reported); then the verifier is re-run once per "
@@ -71,7 +80,13 @@ def spec(tier, seed, repo):
             "catalogue (QR): +1 (flip for parity bits), 2v mod m, 0, 1, delete, truncate, swap, empty; -v, m-v, v+m, m are "
             "executed and recorded (equiv_executed/equiv_accepted), not judged: same square / same residue",
             "public inputs: v+p (elements) and v+q (exponents) are executed and recorded, not judged: the same element / "
-            "residue for a verifier computing mod p / mod q, and a public input is not a transmitted value",
+            "residue for a verifier computing mod p / mod q, and a public input is not a transmitted value; element inputs "
+            "replaced by non-members ((-1)*v, -v, 0, p-1) make the statement ill-formed (validating received cards and keys "
+            "is the caller's CheckElement step, property C06): executed and recorded, not judged; judged are +1, another "
+            "member, 1, swap with the next input of the same kind, for exponents also 0 and -v, for QR values 2v, 0, 1",
+            "verifier-side objects (group, common key, commitment generators, Rabin key) are altered only through "
+            "self-consistent objects built by public constructors / SetupGenerators_publiccoin; common-key variants are "
+            "not applied to the key-share proofs (they do not speak about h); group:g^2 exists only for the random-g class",
             "text after the last delimiter of a structured record (sts^..^x, crs|r|x) is an equivalent representation",
             "acceptance probabilities inherent to the protocols (2^-l_e challenges) are ignored; cut-and-choose public "
             "inputs are judged only in rounds whose challenge selects them (coins scripted)",
